@@ -24,6 +24,26 @@ T = {
  "C18-fill-not-restored-when-space": ("C18", "hex-dumped value on a stream whose prior fill is the default space: fill '0' left behind", "C18"),
  "C19-at-most-after-in-sequence-rejected": ("C19", "legal .IN_SEQUENCE(s).TIMES(AT_MOST(n)) / TIMES(0,n) rejected at compile time with the TIMES(0) message", "C19"),
  "C20-yield-after-return-dropped": ("C20", "CO_RETURN or CO_THROW written before the first CO_YIELD: the yields are dropped", "C20"),
+ "C01-r2-rt-times-zero-not-forbidden": ("C01", "an upper bound of 0 given at run time (RT_TIMES(0)) and a matching call: silently accepted", "C01, C07"),
+ "C02-r2-order-last-listed-sequence": ("C02", "expectation in >= 2 sequences whose last listed sequence is not the one with the most pending steps, plus a competitor whose cost lies in between", "C02"),
+ "C03-r2-count-before-sequence-validation": ("C03", "a call rejected as out of sequence is counted: flags wrong / bound overrun afterwards", "C03, C05"),
+ "C04-r2-saturated-match-marks-active-reported": ("C04", "a 'matches saturated' no-match report marks the other active expectations as reported: their later shortfall is swallowed", "C04"),
+ "C05-r2-order-sum-wraps": ("C05", "expectation in two sequences, skippable satisfied predecessor in the first listed, blocked in the later listed: accepted", "C05"),
+ "C06-r2-dead-monitor-stays-registered": ("C06", "revert of fix 574fb70: a REQUIRE_DESTRUCTION whose object died in order is listed as missing when the sequence object is destroyed", "C06 (replay fixed-dead-monitor-listed)"),
+ "C07-r2-forbid-call-v-with-clause-allows": ("C07", "FORBID_CALL_V with a clause argument on a void function expands to an allowing expectation", "C07 (after the variadic _V spellings were added to the scoped and NAMED literal sites)"),
+ "C08-r2-report-evaluates-all-withs": ("C08", ">= 2 WITH clauses, an earlier one fails, no expectation accepts: the report path evaluates the later WITHs too", "C08"),
+ "C09-r2-const-lvalue-return-copied": ("C09", "function returning const T& with RETURN(_k) / LR_RETURN of a const lvalue: a copy is returned (dangling), not the caller's object", "C09"),
+ "C10-r2-deref-null-check-via-is-null": ("C10", "*m on a null user-defined pointer-like type that is implicitly constructible from nullptr and only has operator==(P,P)", "C10 (after user-defined pointer-like domains were added to engine M)"),
+ "C11-r2-elements-search-from-back": ("C11", "element form of range_includes / range_is_permutation with overlapping element matchers: last fit instead of first fit", "C11 (after deterministic first-fit policies were added for order-dependent cases)"),
+ "C12-r2-monitor-dtor-checks-died-before-lock": ("C12", "a thread releases a NAMED_REQUIRE_DESTRUCTION while another thread destroys the watched object: stale 'died' read before the lock", "C12 modes B/E (after shared deathwatched objects with cross-thread release were added to engine T)"),
+ "C13-r2-assignment-copies-monitor-head": ("C13", "assignment between two deathwatched objects copies the chain of requirements", "C13"),
+ "C14-r2-list-move-keeps-last-only": ("C14", "moving a mock that has >= 2 expectations in one list keeps only the last one; the others dangle", "C14, C01"),
+ "C15-r2-with-shown-before-rejecting-params": ("C15", "expectation with a rejecting parameter AND a false WITH: the report shows the WITH instead of the parameter", "C15"),
+ "C16-r2-set-reporter-one-arg-resets-ok": ("C16", "one-argument set_reporter after a two-argument one silently replaces the OK reporter by the default", "C16"),
+ "C17-r2-params-traced-after-actions": ("C17", "parameters traced after the side effects ran (throwing side effect: no parameter lines)", "C17"),
+ "C18-r2-hexdump-sign-extends": ("C18", "hex dump of an object containing a byte >= 0x80 prints 0xffffffXX", "C18"),
+ "C19-r2-return-then-co-return-accepted": ("C19", ".RETURN(x).CO_RETURN(y) on an ordinary function compiles silently at C++20", "C19 (after the rule engine was corrected: row R24d)"),
+ "C20-r2-shared-param-tuple-per-expectation": ("C20", "two calls with different arguments on one coroutine expectation, a clause naming _N evaluated after the later call", "C20 (after reference-parameter sites were added to engine Q)"),
 }
 logs = ""
 for f in sorted(glob.glob(os.path.join(V, "build", "scratch", "seeds*.log"))):
